@@ -39,6 +39,9 @@ TIERS = {"quick": (160, 80, 120), "thorough": (10000, 600, 180)}
 
 def gen_plan(rng, index, tier):
     bp = {"rings": rng.choice([1, 2]), "symmetry": "full", "nfuel": rng.choice([1, 2, 3]), "plate": rng.random() < 0.4, "plenum": rng.random() < 0.4, "sfp": rng.random() < 0.5, "geom": "hex"}
+    if rng.random() < 0.4:
+        bp["pins"] = True  # blocks with a pin lattice: components carry multi-index / coordinate locators in the block's grid
+        bp["pinrings"] = 2
     cfg = {"reactor": "gen", "blueprint": bp, "settings": {"nCycles": 1, "burnSteps": 1}, "actors": [], "ngeneric": rng.randint(4, 9), "rejected": rng.random() < 0.15}
     steps = []
     kinds = ["g_add", "g_add", "g_insert", "g_remove", "g_removeAll", "g_setChildren", "a_remove", "a_add", "a_insert", "a_reorder", "a_sort", "a_removeAll", "a_setChildren", "b_remove", "b_add", "copy", "pickle", "detach_copy"]
@@ -51,8 +54,8 @@ def gen_plan(rng, index, tier):
 
 def simplify(plan):
     bp = plan["config"]["blueprint"]
-    for key, simple in (("plate", False), ("plenum", False), ("sfp", False), ("nfuel", 1), ("rings", 1)):
-        if bp.get(key) != simple:
+    for key, simple in (("pins", False), ("plate", False), ("plenum", False), ("sfp", False), ("nfuel", 1), ("rings", 1)):
+        if bp.get(key, simple) != simple:
             p = copy.deepcopy(plan)
             p["config"]["blueprint"][key] = simple
             yield p
@@ -472,7 +475,7 @@ class Universe:
             self.fail("C01.copy", f"step {k}: {op} of {src} shares a node with the original", what="shared", op=op)
         if cp.parent is not None:
             self.fail("C01.copy", f"step {k}: {op} of {src} has a parent", what="parent", op=op)
-        for x in b:
+        for xa, x in zip(a, b):
             for c in list(x):
                 if c.parent is not x:
                     self.fail("C01.copy", f"step {k}: in the {op}, child {c} of {x} points at parent {c.parent}", what="relink-parent", op=op)
@@ -480,10 +483,13 @@ class Universe:
             if g is not None:
                 if g.armiObject is not x:
                     self.fail("C01.copy", f"step {k}: in the {op}, the grid of {x} belongs to {g.armiObject}", what="relink-grid", op=op)
-                for c in list(x):
+                for ca, c in zip(list(xa), list(x)):
                     lg = getattr(c.spatialLocator, "grid", None)
+                    lga = getattr(ca.spatialLocator, "grid", None)
                     if lg is not None and lg is not g:
                         self.fail("C01.copy", f"step {k}: in the {op}, child {c} of {x} is located in a grid that is not its parent's", what="relink-locator", op=op)
+                    if lga is xa.spatialGrid and lga is not None and lg is not g:
+                        self.fail("C01.copy", f"step {k}: in the {op}, child {c} of {x} lost its place in the parent's grid (the original's locator is attached, the copy's is {lg})", what="relink-locator-lost", op=op)
 
 
 def execute(plan):
